@@ -441,6 +441,20 @@ func rulesC11(c *Ctx) {
 			l := sp.LitArg(call, 1)
 			ok := l != nil && len(l.AllCalls(l.Body, false)) == 1 && len(l.CallsIn(l.Body, closeObj, false)) == 1
 			c.Check(ok, "idle-timer-callback", sp, call, "the idle timer's callback does nothing but close the session (which removes it from the table through onClose)")
+			// the timer is armed with the configured timeout: either the option itself, or the per-session field after it was
+			// assigned (an AfterFunc evaluated before that assignment is armed with 0 and fires at once, under the first POST)
+			toF := c.Field(pM, "sessionInfo", "timeout")
+			optF := c.Field(pM, "StreamableHTTPOptions", "SessionTimeout")
+			okDur := sp.IsField(call.Args[0], optF)
+			if sp.IsField(call.Args[0], toF) {
+				spg := sp.Graph()
+				for _, w := range sp.FieldWrites(sp.Body, toF, false) {
+					if spg.Dominates(spg.VertexOf(w), spg.VertexOf(call)) && spg.VertexOf(w) != spg.VertexOf(call) {
+						okDur = true
+					}
+				}
+			}
+			c.Check(okDur, "idle-timer-duration", sp, call, "time.AfterFunc is given the session timeout after it has been set")
 		}
 	})
 
